@@ -415,3 +415,60 @@ func shuffle(rng *vkit.Rng, n int) []int {
 	}
 	return p
 }
+
+// alignedPair: a large loop A with few long edges, one of which passes through the centre of a
+// cell T that is the LAST (or FIRST) level-k descendant of an anchor cell P (face or level 1..3
+// cell) — so T ends (begins) at exactly the same leaf as every index cell of A that contains it —
+// and a small loop B around T's centre (shrunk/exact/enlarged cell square or a triangle, any start
+// vertex). The index walk must then step back from B's cell to A's containing cell.
+func alignedPair(rng *vkit.Rng) (a, b []s2.Point, class string) {
+	P := s2.CellIDFromFace(rng.Intn(6))
+	for j := rng.Intn(4); j > 0; j-- {
+		c := rng.Intn(4)
+		if rng.Bool() {
+			c = 3 * rng.Intn(2) // first or last child: alignment propagates to the ancestors
+		}
+		P = P.Children()[c]
+	}
+	k := P.Level() + 1 + rng.Intn(11)
+	var T s2.CellID
+	class = "aligned: B at the END of a cell of A's index"
+	if rng.Intn(3) == 0 {
+		T = P.ChildBeginAtLevel(k)
+		class = "aligned: B at the BEGINNING of a cell of A's index"
+	} else {
+		T = P.ChildEndAtLevel(k).Prev()
+	}
+	t := T.Point()
+	cell := s2.CellFromCellID(T)
+	scale := []float64{0.3, 0.5, 0.9, 1, 1.7}[rng.Intn(5)]
+	rot := rng.Intn(4)
+	for i := 0; i < 4; i++ {
+		v := cell.Vertex((i + rot) % 4)
+		b = append(b, s2.Point{Vector: t.Add(v.Sub(t.Vector).Mul(scale)).Normalize()})
+	}
+	if rng.Intn(3) == 0 {
+		b = b[:3]
+	}
+	u := s2.Ortho(t)
+	w := s2.Point{Vector: t.Cross(u.Vector).Normalize()}
+	phi := rng.Range(0, 2*math.Pi)
+	dir := u.Mul(math.Cos(phi)).Add(w.Mul(math.Sin(phi)))
+	// shift the edge a little off the centre sometimes, staying inside the small loop
+	off := t.Cross(dir).Normalize().Mul(rng.Range(-0.2, 0.2) * scale * cell.ExactArea() / math.Sqrt(cell.ExactArea()+1e-300))
+	c0 := s2.Point{Vector: t.Add(off).Normalize()}
+	al, be := rng.Range(0.3, 1.2), rng.Range(0.3, 1.2)
+	p1 := s2.Point{Vector: c0.Mul(math.Cos(al)).Add(dir.Mul(math.Sin(al))).Normalize()}
+	p2 := s2.Point{Vector: c0.Mul(math.Cos(be)).Sub(dir.Mul(math.Sin(be))).Normalize()}
+	n := s2.Point{Vector: t.Cross(dir).Normalize()}
+	q := s2.Point{Vector: n.Mul(math.Cos(0.3)).Add(randPoint(rng).Mul(0.3)).Normalize()}
+	a = []s2.Point{p2, p1, q}
+	if rng.Bool() { // a fourth vertex on the far side
+		q2 := s2.Point{Vector: n.Mul(0.8).Sub(dir.Mul(0.9)).Add(randPoint(rng).Mul(0.1)).Normalize()}
+		a = []s2.Point{p2, p1, q, q2}
+	}
+	if rng.Bool() {
+		a = reversed(a)
+	}
+	return a, b, class
+}
